@@ -12,7 +12,7 @@ use crate::ops::*;
 use std::collections::{BTreeMap, BTreeSet};
 
 pub fn safe_char(c: char) -> bool {
-    c.is_ascii_alphanumeric() || "!&()+,-.;=@_".contains(c)
+    c.is_ascii_alphanumeric() || "!&()+,-.;=@".contains(c)
 }
 pub fn storable(n: &str) -> bool {
     n.chars().all(safe_char)
@@ -23,6 +23,7 @@ pub fn has_dq(n: &str) -> bool {
 
 pub const K_DQ: &str = "delimiter_or_quote_in_name";
 pub const K_UNSAFE: &str = "path_unsafe_name";
+pub const K_LIKE: &str = "like_wildcard_in_name";
 pub const K_KIND: &str = "kind_confusion";
 pub const K_PAGING: &str = "manifest_listing_ignores_paging";
 pub const K_DUP: &str = "dual_listing_duplicate_name";
@@ -32,6 +33,8 @@ pub const K_EMPTYLOC: &str = "register_empty_location";
 pub fn name_class(op: &Op) -> Option<&'static str> {
     if op.id().iter().any(|n| has_dq(n)) {
         Some(K_DQ)
+    } else if op.id().iter().any(|n| n.contains('_') && n.chars().all(|c| safe_char(c) || c == '_')) {
+        Some(K_LIKE)
     } else if op.id().iter().any(|n| !storable(n)) {
         Some(K_UNSAFE)
     } else {
